@@ -35,6 +35,12 @@ Theorem C11_umad_empty_parent : forall (G : Type) (gen : dist G) a d,
 Proof. exact @umad_empty_parent. Qed.
 Print Assumptions C11_umad_empty_parent.
 
+(* addition rate 0 and deletion rate 0 (and, for an empty parent, empty-genome addition disabled or at rate 0): the identity *)
+Theorem C11_umad_rate_0_identity : forall (G : Type) (gen : dist G) e g P,
+  (e = None \/ e = Some 0) -> prob (umad gen 0 0 e g) P == if P g then 1 else 0.
+Proof. exact @umad_rate_0_any_parent. Qed.
+Print Assumptions C11_umad_rate_0_identity.
+
 Theorem C11_umad_delete_all : forall (G : Type) (gen : dist G) a g P,
   prob (umad_loop gen a 1 g) P == if P [] then 1 else 0.
 Proof. exact @umad_delete_all. Qed.
